@@ -159,6 +159,38 @@ func classifyOpCall(call *ssa.Call) (storOp, bool) {
 		}
 	}
 	if op.KeyClass == "" {
+		// the Key field of another operation taken out of a slice of operations built in this function
+		// (e.g. DeleteOperation(op.Key) for op ranging over the retrieve batch)
+		if u, ok := strip(key).(*ssa.UnOp); ok && u.Op == token.MUL {
+			if fa, ok := u.X.(*ssa.FieldAddr); ok && derefStruct(fa.X.Type()) != nil && derefStruct(fa.X.Type()).Field(fa.Field).Name() == "Key" {
+				if el, ok := strip(fa.X).(*ssa.UnOp); ok && el.Op == token.MUL {
+					if ia, ok := el.X.(*ssa.IndexAddr); ok {
+						if elems, ok := variadicElems(ia.X); ok && len(elems) > 0 {
+							cls := ""
+							same := true
+							for _, e := range elems {
+								if src, ok := strip(e).(*ssa.Call); ok && src != call {
+									if so, ok := classifyOpCall(src); ok {
+										if cls == "" {
+											cls = so.KeyClass
+										} else if cls != so.KeyClass {
+											same = false
+										}
+										continue
+									}
+								}
+								same = false
+							}
+							if same && cls != "" {
+								op.KeyClass = cls
+							}
+						}
+					}
+				}
+			}
+		}
+	}
+	if op.KeyClass == "" {
 		op.KeyClass = "?"
 	}
 	return op, true
@@ -642,6 +674,8 @@ func runC01(c *Ctx) {
 		}
 	}
 	runC01Chain(c, a)
+	runC01Recovery(c, a)
+	runC01Recovery2(c, a)
 	// ----- R6
 	c.Rule("R6", "WHO+GATE+PAIR", "the storage client is closed only by the unref helper under refCount==0; the completion callback always releases its reference (deferred unref)", 3)
 	{
